@@ -199,17 +199,23 @@ constexpr const char *kKindName = "flatset";
 typedef std::conditional<CFG_CMP == 1, std::less<T>, std::greater<T> >::type OtherCmp;
 typedef amc::FlatSet<T, OtherCmp, FAlloc, UVec> OtherS;
 #else
+typedef std::conditional<CFG_CMP == 1, std::less<T>, std::greater<T> >::type OtherCmp;
+typedef std::conditional<CFG_CMP == 1, std::less<int>, std::greater<int> >::type OtherMCmp;
 #if CFG_BACK == 0
 typedef std::set<T, Cmp, Alloc> Back;
 constexpr const char *kBackName = "stdset";
 typedef amc::SmallSet<T, CFG_N, Cmp, Alloc, Back> S;
 typedef amc::SmallSet<T, CFG_N + 1, Cmp, Alloc, Back> OtherS;  // other N, same backing type (merge template)
+// other comparator (and other N): merge(SmallSet<T, N2, C2, Alloc, SetType2>&)
+typedef amc::SmallSet<T, (CFG_N > 1 ? CFG_N - 1 : 2), OtherCmp, Alloc, std::set<T, OtherCmp, Alloc> > OtherS2;
 #else
 typedef amc::FlatSet<T, Cmp, Alloc, amc::vector<T, Alloc> > Back;
 constexpr const char *kBackName = "flatset";
 typedef amc::SmallSet<T, CFG_N, Cmp, Alloc, Back> S;
 typedef amc::SmallSet<T, CFG_N + 1, Cmp, Alloc, Back> OtherS;
+typedef amc::SmallSet<T, (CFG_N > 1 ? CFG_N - 1 : 2), OtherCmp, Alloc, amc::FlatSet<T, OtherCmp, Alloc, amc::vector<T, Alloc> > > OtherS2;
 #endif
+constexpr int kOther2N = (CFG_N > 1 ? CFG_N - 1 : 2);
 constexpr const char *kKindName = "smallset";
 #endif
 
